@@ -1,9 +1,12 @@
 CLAIM = "C06 (partial) TODO"
 ASSUMPTIONS = []
 HARNESSES = [
-    dict(name="glob.3x3", src="C06/glob.c", defines=["GL=3", "NL=3"], unwind=20,
+    dict(name="glob.3x3", src="C06/glob.c", defines=["GL=3", "NL=3"], unwind=6, unwindset={"match_glob": 3, "match_glob.0": 4, "match_glob.1": 4},
          units=["src/filter.c:match_glob"], timeout=120,
-         bounds="all patterns of <= 3 bytes x all strings of <= 3 bytes (all byte values), as 15 x 4 concrete shapes with symbolic bytes"),
+         bounds="all patterns of <= 3 bytes x all strings of <= 3 bytes (all byte values); recursion depth 3 proved sufficient by the recursion unwinding assertion"),
+    dict(name="glob.4x4", src="C06/glob.c", defines=["GL=4", "NL=4"], unwind=7, unwindset={"match_glob": 4, "match_glob.0": 5, "match_glob.1": 5},
+         units=["src/filter.c:match_glob"], timeout=600,
+         bounds="all patterns of <= 4 bytes x all strings of <= 4 bytes (all byte values)"),
     dict(name="filter.m3", src="C06/filter.c", defines=["M=3", "NF=2", "SL=2"], unwind=6, rename_defs={"src/filter.c": ["match_glob"]},
          units=["src/filter.c:matches_filter,lha_filter_next_file,lha_filter_init"], timeout=200,
          bounds="3 members (path, name each NULL or <= 2 arbitrary bytes), 0..2 wildcard arguments, arbitrary match verdict per (wildcard, member)",
@@ -15,4 +18,10 @@ HARNESSES = [
     dict(name="options.n5", src="C06/options.c", defines=["N=5"], unwind=8,
          units=["src/main.c:parse_options,init_options"], timeout=200,
          bounds="all option strings of <= 5 bytes (all byte values)"),
+] + [
+    dict(name="dirs.cat%d" % c, src="C06/dirs.c", defines=["M=3", "CAT=%d" % c], unwind=9,
+         units=["lib/lha_reader.c:lha_reader_next_file,lha_reader_extract,extract_directory,end_of_top_dir,set_directory_metadata,extract_file,open_output_file,set_timestamps_from_header"], timeout=300, mem_gb=6,
+         bounds="catalogue entry %d: %s; per member arbitrary extra flags, permission bits (<= 07777), timestamp, length, CRC; directories may pre-exist (owner rwx) with arbitrary mode/time; chown succeeds or fails; %s" % (c, d, "END_OF_FILE policy only" if c == 6 else "3 directory policies"),
+         stubs=["lha_arch_*: model filesystem (owner permission semantics, parent mtime stamping)", "lha_basic_reader_*: serves the 3 headers", "decoder: payload decodes with matching length/CRC, one read", "fwrite/fclose: succeed"])
+    for c, d in [(0, "a/ a/b/ a/b/f"), (1, "a/ a/f c/"), (2, "a/ c/ c/f"), (3, "a/ a/f a/g"), (4, "a/ a/b/ a/g"), (5, "a/ a/f ab/"), (6, "a/ c/ a/g (not contiguous)")]
 ]
